@@ -934,7 +934,11 @@ def start_tag(el):
     """
     The text representation of the start tag for a tag.
     """
-    if el.tag in void_tags and el.tail and start_whitespace_re.search(el.tail):
+    # Keep the whitespace that separates the tag from what follows it: the
+    # start of the element's text (`split_words()` drops leading whitespace)
+    # or, for void elements, which have no end tag, the start of their tail.
+    following = el.tail if el.tag in void_tags else el.text
+    if following and start_whitespace_re.search(following):
         extra = ' '
     else:
         extra = ''
